@@ -71,7 +71,7 @@ def check(ctx, floors=True, only_literals=False):
         if len(fns) == 1:
             t = show(Norm(fns[0]).term(fns[0]["body"]))
             expect_term(ctx, "C09.1", "alloc-path-render", fns[0]["sp"], t,
-                        "if(let AllocCratePath::Custom($)=P0){ToTokens::to_tokens(P0@AllocCratePath::Custom.0,P1)}else{Extend::extend(P1,T[:: std]())}",
+                        "Extend::extend(P1,if(let AllocCratePath::Custom($)=P0){T[#0](P0@AllocCratePath::Custom.0)}else{T[:: std]()})",
                         "Std renders as `::std`; Custom(p) renders exactly p")
         else:
             ctx.bad("C09.1", "missing-anchor/AllocCratePath::to_tokens", "", "impl ToTokens for AllocCratePath not found")
